@@ -317,7 +317,7 @@ def initialize_port_release_snippet(port: CppPortItf, multiclient: MultiClientPo
     stdfunction_arguments = '(' + ', '.join(args) + ')' if args else ''
     call_arguments = ', '.join([arg.name for arg in event.signature.formals.elements])
 
-    lambda_body = TextBlock([f'{port.accessor_target}.Arbitered().in.Release({call_arguments});',
+    lambda_body = TextBlock([f'{port.accessor_target}.Arbitered().in.{event.name}({call_arguments});',
                              f'{port.accessor_target}.Deselect(identifier);'])
 
     return TextBlock([f'port.in.{event.name} = [&, identifier]{stdfunction_arguments} {{',
